@@ -7,11 +7,13 @@
    ([json] is universally quantified).  [good e] : the reference client, applying
    the delivered push to what it holds, obtains exactly the published payload.
 
-   STATUS of the code as found: the property is VIOLATED (three refutations
-   below, all reproduced on the implementation by the driver).  [fx = true]
-   models the proposed guard in subscribeCmd (delta allowed after recovery only
-   when the reply ends with the publication at the subscription's start
-   position); with it the positioned-stream theorem holds for every schedule. *)
+   STATUS: three violations were reproduced on the implementation by the driver.
+   [fx = true] models the guard in subscribeCmd (delta allowed after recovery
+   only when the reply ends with the publication at the subscription's start
+   position, repo commit 02db755e); with it the positioned-stream theorem holds
+   for every schedule; [fx = false] is the code before that commit (two
+   refutations).  The map refutation (delta + tags filter) is still open
+   (KNOWN_FINDINGS: map-delta-with-tags-filter). *)
 From Coq Require Import List NArith Bool Arith.
 From Cfg Require Import Model.Delta Proofs.Delta Proofs.DeltaRefute Harness.C14 Proofs.DeltaOracle.
 Import ListNotations.
